@@ -335,7 +335,15 @@ class DerivedTypeArgumentsTransformation(Transformation):
         def assumed_dim_or_none(shape):
             if not shape:
                 return None
-            return tuple(RangeIndex((None, None)) for _ in shape)
+            # Declare the new argument with assumed shape, but retain an explicit constant lower
+            # bound of the member's declaration (e.g. ``v(0:3)`` becomes ``(0:)``) as the
+            # member use in the body refers to these bounds
+            return tuple(
+                RangeIndex((dim.lower, None))
+                if isinstance(dim, RangeIndex) and dim.lower is not None and not FindVariables().visit(dim.lower)
+                else RangeIndex((None, None))
+                for dim in shape
+            )
 
         # Build the arguments map to update the call signature
         arguments_map = {}
